@@ -1263,7 +1263,9 @@ fn account(acc: &mut Acc, sc: &Scenario, out: &RunOut, reference: &Reference, ro
         let b: Vec<String> = canon_event_lines(&out.trace);
         let first = out.trace.iter().position(|e| e.rule != -1).unwrap_or(b.len());
         let n = first.min(a.len()).min(b.len());
-        if sc.read_cap == 0 && sc.write_cap == 0 && sc.fsize_limit.is_none() && sc.stdout == "pipe" {
+        if own_threads(&out.trace) || own_threads(p) {
+            stats.count("runs_in_which_the_program_started_threads_of_its_own", 1);
+        } else if sc.read_cap == 0 && sc.write_cap == 0 && sc.fsize_limit.is_none() && sc.stdout == "pipe" {
             if a[..n] != b[..n] {
                 let at = (0..n).find(|i| a[*i] != b[*i]).unwrap_or(0);
                 stats.harness_errors.push(format!("determinism: faulted trace diverges from its profile before the first fault (g={}): event {}: profile [{}] faulted [{}] rules {:?}", g, at, a[at], b[at], sc.rules.iter().map(|r| r.short()).collect::<Vec<_>>()));
